@@ -521,7 +521,8 @@ func (s *serverStream) SetTrailer(md metadata.MD) {
 	s.wmu.Lock()
 	defer s.wmu.Unlock()
 
-	s.tr = append(s.tr, md)
+	// copy: the handler is free to re-use its map after the call returns
+	s.tr = append(s.tr, md.Copy())
 }
 
 func (s *serverStream) Context() context.Context {
